@@ -166,7 +166,10 @@ class ZeroLinearOperator(LinearOperator):
         return res
 
     def div(self, other: Union[float, torch.Tensor]) -> LinearOperator:
-        return self
+        if not torch.is_tensor(other):
+            return self  # a python scalar
+        shape = torch.broadcast_shapes(self.shape, other.shape)
+        return self.__class__(*shape, dtype=self._dtype, device=self._device)
 
     def inv_quad(
         self: Float[LinearOperator, "*batch N N"],
